@@ -22,7 +22,8 @@ LEVEL_NOTE = ("Trusted: the brute-force oracle (it reproduces the known counts 5
 RULE = ("cases: PDAG codes (base-4 digit per node pair) with acyclic directed part -> all_dags and is_consistent_extension "
         "for every acyclic orientation of the skeleton; DAG codes -> mec (both check_chain); chains; weighted copies; "
         "sampled larger graphs.  distinct = distinct (family, graph, weights); non-trivial = class size >= 2, or PDAG with "
-        ">= 1 undirected edge, or no extension")
+        ">= 1 undirected edge, or no extension"
+        ' Also: every small graph relabelled into 9..20 nodes (random and hash-hostile labels), named shapes on 6-10 nodes, presentations of the input array (see C03), minute weights, weighted canonical chains / chains plus chords (near the chain special case), graphs built from utils.chain_graph and edited in place, check_chain=False and a sufficient max_combinations, repeat after the caller overwrote the result.')
 ASSUMPTIONS = ["brute-force oracle over python ints is correct (self-check: number of DAGs / classes per p recomputed each run)",
                "PDAG inputs with a cyclic directed part are outside the property's quantifier and only counted"]
 EXHAUSTIVE = {"quick": True, "thorough": True}
